@@ -7,7 +7,7 @@ HTTP_OK = {"create-stream", "update-stream", "delete-stream", "purge-stream", "c
            "send", "poll", "store-offset", "get-offset", "delete-offset", "streams", "stream", "topics", "topic",
            "groups", "group", "users", "user", "create-user", "delete-user", "update-user", "update-perms",
            "stats", "flush", "change-pw", "create-pat", "delete-pat", "pats"}
-HC = 7
+HC = 77      # far above any connection number a generator hands out
 
 
 def httpify(rng, cfg, ops, share=0.5):
